@@ -66,6 +66,51 @@ type Proc struct {
 	Slow int `json:"slow,omitempty"`
 	// wait this long after the common start before the first operation (no random jitter then)
 	DelayUs int `json:"delayUs,omitempty"`
+	// instrument identity (documented: name, kind, unit, description); Inst defaults to the process name
+	Inst string `json:"inst,omitempty"`
+	Unit string `json:"unit,omitempty"`
+	Desc string `json:"desc,omitempty"`
+	// registrar: the observable is created directly on SDK r1 (installed or not), only the callback goes through the
+	// global meter -- a placeholder meter with a callback but no placeholder instrument
+	SdkObs bool `json:"sdkobs,omitempty"`
+	// creator / registrar: the Meter is obtained before anything runs, the instrument (callback) only in the concurrent
+	// phase -- a placeholder meter that is empty when it is handed over
+	PreMeter bool `json:"premeter,omitempty"`
+	// creator (pre) / tuser (pre) / xuser: N operations in a tight loop without any logging, gate or other
+	// synchronisation of the harness's own -- for the race detector (every logged event is a happens-before edge that
+	// would hide a race inside internal/global)
+	Quiet bool `json:"quiet,omitempty"`
+}
+
+func (p Proc) instName() string {
+	if p.Inst != "" {
+		return p.Inst
+	}
+	return p.Name
+}
+func (p Proc) kind() string {
+	if p.IKind != "" {
+		return p.IKind
+	}
+	if p.Kind == "registrar" {
+		return "i64ocounter"
+	}
+	return "i64counter"
+}
+func (p Proc) sid() string { return sidOf(p.instName(), p.kind(), p.Unit, p.Desc) }
+
+// dataClass: what the exported data says about the kind of its instrument (sync and observable look alike)
+func dataClass(kind string) string {
+	t := kind[:3]
+	switch {
+	case strings.HasSuffix(kind, "updown"):
+		return t + "sum"
+	case strings.HasSuffix(kind, "counter"):
+		return t + "mono"
+	case strings.HasSuffix(kind, "hist"):
+		return t + "hist"
+	}
+	return t + "gauge"
 }
 
 type Scenario struct {
@@ -85,55 +130,57 @@ var obsKinds = []string{"i64ocounter", "i64oupdown", "i64ogauge", "f64ocounter",
 
 type recorder func(ctx context.Context)
 
-func newSync(m metric.Meter, kind, name string) (recorder, error) {
+func newSync(m metric.Meter, kind, name, unit, desc string) (recorder, error) {
+	u, d := metric.WithUnit(unit), metric.WithDescription(desc)
 	switch kind {
 	case "i64updown":
-		i, err := m.Int64UpDownCounter(name)
+		i, err := m.Int64UpDownCounter(name, u, d)
 		return func(c context.Context) { i.Add(c, 1) }, err
 	case "i64hist":
-		i, err := m.Int64Histogram(name)
+		i, err := m.Int64Histogram(name, u, d)
 		return func(c context.Context) { i.Record(c, 1) }, err
 	case "i64gauge":
-		i, err := m.Int64Gauge(name)
+		i, err := m.Int64Gauge(name, u, d)
 		return func(c context.Context) { i.Record(c, 1) }, err
 	case "f64counter":
-		i, err := m.Float64Counter(name)
+		i, err := m.Float64Counter(name, u, d)
 		return func(c context.Context) { i.Add(c, 1) }, err
 	case "f64updown":
-		i, err := m.Float64UpDownCounter(name)
+		i, err := m.Float64UpDownCounter(name, u, d)
 		return func(c context.Context) { i.Add(c, 1) }, err
 	case "f64hist":
-		i, err := m.Float64Histogram(name)
+		i, err := m.Float64Histogram(name, u, d)
 		return func(c context.Context) { i.Record(c, 1) }, err
 	case "f64gauge":
-		i, err := m.Float64Gauge(name)
+		i, err := m.Float64Gauge(name, u, d)
 		return func(c context.Context) { i.Record(c, 1) }, err
 	default:
-		i, err := m.Int64Counter(name)
+		i, err := m.Int64Counter(name, u, d)
 		return func(c context.Context) { i.Add(c, 1) }, err
 	}
 }
 
-// newObs creates an observable instrument and returns the callback body that observes 1 on it.
-func newObs(m metric.Meter, kind, name string) (metric.Observable, func(metric.Observer, int64), error) {
+// newObs creates an observable instrument and returns the callback body that observes v on it.
+func newObs(m metric.Meter, kind, name, unit, desc string) (metric.Observable, func(metric.Observer, int64), error) {
+	u, d := metric.WithUnit(unit), metric.WithDescription(desc)
 	switch kind {
 	case "i64oupdown":
-		i, err := m.Int64ObservableUpDownCounter(name)
+		i, err := m.Int64ObservableUpDownCounter(name, u, d)
 		return i, func(o metric.Observer, v int64) { o.ObserveInt64(i, v) }, err
 	case "i64ogauge":
-		i, err := m.Int64ObservableGauge(name)
+		i, err := m.Int64ObservableGauge(name, u, d)
 		return i, func(o metric.Observer, v int64) { o.ObserveInt64(i, v) }, err
 	case "f64ocounter":
-		i, err := m.Float64ObservableCounter(name)
+		i, err := m.Float64ObservableCounter(name, u, d)
 		return i, func(o metric.Observer, v int64) { o.ObserveFloat64(i, float64(v)) }, err
 	case "f64oupdown":
-		i, err := m.Float64ObservableUpDownCounter(name)
+		i, err := m.Float64ObservableUpDownCounter(name, u, d)
 		return i, func(o metric.Observer, v int64) { o.ObserveFloat64(i, float64(v)) }, err
 	case "f64ogauge":
-		i, err := m.Float64ObservableGauge(name)
+		i, err := m.Float64ObservableGauge(name, u, d)
 		return i, func(o metric.Observer, v int64) { o.ObserveFloat64(i, float64(v)) }, err
 	default:
-		i, err := m.Int64ObservableCounter(name)
+		i, err := m.Int64ObservableCounter(name, u, d)
 		return i, func(o metric.Observer, v int64) { o.ObserveInt64(i, v) }, err
 	}
 }
@@ -154,6 +201,9 @@ type child struct {
 	wtp   map[string]*wTP
 	dmp   metric.MeterProvider // the default (delegating) providers, kept from before anything was installed
 	dtp   trace.TracerProvider
+	ident map[string]Proc // owner -> its process (instrument identity), for reading the exported data
+	pmet  map[string]metric.Meter
+	pvia  map[string]string
 	via   map[string]string // handle (owner / "t:"+user) -> provider it came from: "dflt" | "r1" | "r2"
 	mu    sync.Mutex
 	recs  map[string]recorder            // handed-out sync instruments (by owner name)
@@ -216,9 +266,12 @@ func (c *child) getMeter(p Proc, proc string, gate func(string)) (metric.Meter, 
 }
 func (c *child) mkSync(p Proc, m metric.Meter, via, proc string, gate func(string)) recorder {
 	gate("inst")
-	f := map[string]any{"kind": "mp", "what": "inst", "obj": p.Name, "proc": proc, "ikind": p.IKind, "via": via}
+	f := map[string]any{"kind": "mp", "what": "inst", "obj": p.Name, "proc": proc, "ikind": p.IKind, "via": via, "sid": p.sid()}
 	c.call("Obj", f)
-	r, err := newSync(m, p.IKind, p.Name)
+	c.mu.Lock()
+	c.ident[p.Name] = p
+	c.mu.Unlock()
+	r, err := newSync(m, p.kind(), p.instName(), p.Unit, p.Desc)
 	f["err"] = errS(err)
 	c.ret("Obj", f)
 	if err != nil { // the SDK refused the instrument and the caller was told: nothing to use
@@ -231,7 +284,13 @@ func (c *child) mkSync(p Proc, m metric.Meter, via, proc string, gate func(strin
 	return r
 }
 func (c *child) use(kind, id, obj, via, proc string, f func(ctx context.Context)) {
-	ev := map[string]any{"kind": kind, "id": id, "obj": obj, "via": via, "proc": proc}
+	sid := ""
+	if kind == "mp" {
+		c.mu.Lock()
+		sid = c.ident[obj].sid()
+		c.mu.Unlock()
+	}
+	ev := map[string]any{"kind": kind, "id": id, "obj": obj, "via": via, "proc": proc, "sid": sid}
 	c.call("Use", ev)
 	f(withID(id))
 	c.ret("Use", ev)
@@ -239,9 +298,19 @@ func (c *child) use(kind, id, obj, via, proc string, f func(ctx context.Context)
 func (c *child) register(p Proc, m metric.Meter, via string, gate func(string)) {
 	defer close(c.regCh[p.Name])
 	gate("inst")
-	f := map[string]any{"kind": "mp", "what": "inst", "obj": p.Name, "proc": p.Name, "ikind": p.IKind, "via": via}
+	f := map[string]any{"kind": "mp", "what": "inst", "obj": p.Name, "proc": p.Name, "ikind": p.IKind, "via": via, "sid": p.sid()}
 	c.call("Obj", f)
-	inst, observe, err := newObs(m, p.IKind, p.Name)
+	c.mu.Lock()
+	c.ident[p.Name] = p
+	c.mu.Unlock()
+	c.h.mu.Lock()
+	c.h.cbOfSid[p.sid()] = p.Name
+	c.h.mu.Unlock()
+	om := m
+	if p.SdkObs { // the observable comes straight from SDK r1; only the callback goes through the (global) meter m
+		om = c.wmp["r1"].Meter(p.Meter, c.mopts[p.Name]...)
+	}
+	inst, observe, err := newObs(om, p.kind(), p.instName(), p.Unit, p.Desc)
 	f["err"] = errS(err)
 	c.ret("Obj", f)
 	if err != nil {
@@ -320,6 +389,8 @@ func (c *child) xuse(kind, id, proc string, prop propagation.TextMapPropagator, 
 	c.use(kind, id, kind, via, proc, func(ctx context.Context) {
 		if kind == "prop" {
 			prop.Inject(ctx, propagation.MapCarrier{})
+			prop.Extract(ctx, propagation.MapCarrier{})
+			prop.Fields()
 		} else {
 			eh.Handle(errors.New("xid=" + id))
 		}
@@ -382,9 +453,40 @@ func (c *child) collectFrom(final bool, proc string, rds map[string]*sdkmetric.M
 				case metricdata.Gauge[float64]:
 					has, n = len(d.DataPoints) > 0, -1
 				}
-				if has {
-					points = append(points, m.Name)
-					sums = append(sums, map[string]any{"inst": sdk + "/" + m.Name, "name": m.Name, "n": n})
+				if !has {
+					continue
+				}
+				// whose instrument is this? identity = name, kind (as far as the data shows it), unit, description
+				class := ""
+				switch d := m.Data.(type) {
+				case metricdata.Sum[int64]:
+					class = map[bool]string{true: "i64mono", false: "i64sum"}[d.IsMonotonic]
+				case metricdata.Sum[float64]:
+					class = map[bool]string{true: "f64mono", false: "f64sum"}[d.IsMonotonic]
+				case metricdata.Histogram[int64]:
+					class = "i64hist"
+				case metricdata.Histogram[float64]:
+					class = "f64hist"
+				case metricdata.Gauge[int64]:
+					class = "i64gauge"
+				case metricdata.Gauge[float64]:
+					class = "f64gauge"
+				}
+				var owners []string
+				c.mu.Lock()
+				for o, p := range c.ident {
+					if p.instName() == m.Name && dataClass(p.kind()) == class && p.Unit == m.Unit && p.Desc == m.Description {
+						owners = append(owners, o)
+					}
+				}
+				c.mu.Unlock()
+				sort.Strings(owners)
+				for _, o := range owners {
+					points = append(points, o)
+					if len(owners) > 1 || c.ident[o].Quiet {
+						n = -1 // a shared instrument (identical identity): the sum is shared too; quiet: uses are not logged
+					}
+					sums = append(sums, map[string]any{"inst": sdk + "/" + o, "name": o, "n": n})
 				}
 			}
 		}
@@ -479,7 +581,7 @@ func runChild(sc Scenario, out string) {
 		props: map[string]propagation.TextMapPropagator{}, ehs: map[string]otel.ErrorHandler{}}
 	c.sched = newSched(sc.Script, sc.Seed+7, sc.Perturb)
 	c.h = &H{emit: c.emit, sched: c.sched, obs: map[any]string{}, refuseReg: map[string]bool{}, refuseInst: map[string]bool{},
-		kindOf: map[string]string{}, cbs: map[string]metric.Callback{}, cbCh: map[string]chan struct{}{}}
+		kindOf: map[string]string{}, cbOfSid: map[string]string{}, cbs: map[string]metric.Callback{}, cbCh: map[string]chan struct{}{}}
 	for _, n := range sc.RefuseReg {
 		c.h.refuseReg[n] = true
 	}
@@ -506,6 +608,7 @@ func runChild(sc Scenario, out string) {
 		}
 	}
 	c.ids = []string{"r1", "r2"}
+	c.ident, c.pmet, c.pvia = map[string]Proc{}, map[string]metric.Meter{}, map[string]string{}
 	c.rd, c.wmp, c.wtp, c.via = map[string]*sdkmetric.ManualReader{}, map[string]*wMP{}, map[string]*wTP{}, map[string]string{}
 	c.rd2 = map[string]*sdkmetric.ManualReader{}
 	for _, id := range c.ids {
@@ -540,6 +643,8 @@ func runChild(sc Scenario, out string) {
 		case p.Kind == "registrar" && p.Pre:
 			m, via := c.getMeter(p, "main", nogate)
 			c.register(p, m, via, nogate)
+		case (p.Kind == "creator" || p.Kind == "registrar") && p.PreMeter:
+			c.pmet[p.Name], c.pvia[p.Name] = c.getMeter(p, "main", nogate)
 		case p.Kind == "tuser" && p.Pre:
 			c.getTracer(p, nogate)
 		case p.Kind == "xuser":
@@ -740,11 +845,22 @@ func (c *child) runProc(p Proc, r *rand.Rand) {
 		c.mu.Lock()
 		rec := c.recs[p.Name]
 		c.mu.Unlock()
-		if !p.Pre {
+		if p.PreMeter {
+			rec = c.mkSync(p, c.pmet[p.Name], c.pvia[p.Name], p.Name, gate)
+		} else if !p.Pre {
 			m, via := c.getMeter(p, p.Name, gate)
 			rec = c.mkSync(p, m, via, p.Name, gate)
 		}
 		if rec == nil {
+			return
+		}
+		if p.Quiet {
+			for k := 0; k < n; k++ {
+				rec(context.Background())
+				if k%8 == 0 {
+					runtime.Gosched()
+				}
+			}
 			return
 		}
 		for k := 1; k <= n; k++ {
@@ -752,7 +868,9 @@ func (c *child) runProc(p Proc, r *rand.Rand) {
 			c.use("mp", fmt.Sprintf("%s:%d", p.Name, k), p.Name, c.viaOf(p.Name), p.Name, rec)
 		}
 	case "registrar":
-		if !p.Pre {
+		if p.PreMeter {
+			c.register(p, c.pmet[p.Name], c.pvia[p.Name], gate)
+		} else if !p.Pre {
 			m, via := c.getMeter(p, p.Name, gate)
 			c.register(p, m, via, gate)
 		}
@@ -798,6 +916,16 @@ func (c *child) runProc(p Proc, r *rand.Rand) {
 		if !p.Pre {
 			t = c.getTracer(p, gate)
 		}
+		if p.Quiet {
+			for k := 0; k < n; k++ {
+				_, sp := t.Start(context.Background(), "s")
+				sp.End()
+				if k%8 == 0 {
+					runtime.Gosched()
+				}
+			}
+			return
+		}
 		for k := 1; k <= n; k++ {
 			gate(fmt.Sprintf("start:%d", k))
 			c.use("tp", fmt.Sprintf("%s:%d", p.Name, k), p.Tracer, c.viaOf("t:"+p.Name), p.Name, func(ctx context.Context) {
@@ -807,6 +935,22 @@ func (c *child) runProc(p Proc, r *rand.Rand) {
 		}
 	case "xuser":
 		prop, eh := c.props[p.Name], c.ehs[p.Name]
+		if p.Quiet {
+			ctx, err, car := context.Background(), errors.New("quiet"), propagation.MapCarrier{}
+			for k := 0; k < n; k++ {
+				if p.X == "prop" {
+					prop.Inject(ctx, car)
+					prop.Extract(ctx, car)
+					prop.Fields()
+				} else {
+					eh.Handle(err)
+				}
+				if k%8 == 0 {
+					runtime.Gosched()
+				}
+			}
+			return
+		}
 		for k := 1; k <= n; k++ {
 			gate(fmt.Sprintf("use:%d", k))
 			if p.Fresh {
